@@ -17,6 +17,8 @@ B_THOROUGH = B_QUICK + ['x64-soft', 'x64-alt1', 'x64-alt2', 'x64-aesni-all', 'a6
                         'x86-soft-all', 'x86-alt1-all']
 
 REGISTRY = {
+    'C05': dict(module='c05', level='other', technique='global value numbering of constructors and block functions with DES helpers as uninterpreted functions, compared with the SP 800-67 composition terms',
+                quick=['x64'], thorough=['x64', 'a64', 'x86']),
     'C01': dict(module='c01', level='other', technique='global value numbering (Herbrand terms + cancellation rewrites) over abstractly interpreted MIR: dec(enc(x)) == x as a term identity',
                 quick=['x64'], thorough=['x64', 'x64-alt1', 'a64', 'x86']),
     'C18': dict(module='c18', level='other', technique='abstract interpretation of belt_wblock_enc/dec for every short length and enumerated longer lengths; store-free rejection path',
